@@ -76,11 +76,15 @@ def accT (a : TAcc) (k : RepKey) (ev : Ev) : TAcc :=
   match ev with
   | .apply cmds _ =>
     cmds.foldl (fun (a : TAcc) (p : Nat × Nat) =>
-      match a.union.find? (fun u => u.1 == k.slot && u.2.1 == p.1) with
-      | some u => if u.2.2 ≠ p.2 then a.fail "replicas-disagree" else a
-      | none =>
-        let a := if a.union.any (fun u => u.1 == k.slot && u.2.2 == p.2) then a.fail "proposal-applied-twice" else a
-        { a with union := (k.slot, p.1, p.2) :: a.union }) a
+      -- the agreement decision is `unionAdd` of the spec (c12_acceptor_sound_agreement)
+      let u := (a.union.filter (fun x => x.1 == k.slot)).map (·.2)
+      match unionAdd u p with
+      | none => a.fail "replicas-disagree"
+      | some u' =>
+        if u'.length == u.length then a
+        else
+          let a := if u.any (fun x => x.2 == p.2) then a.fail "proposal-applied-twice" else a
+          { a with union := (k.slot, p.1, p.2) :: a.union }) a
   | .restore i c => { a with restores := (k.slot, i, c) :: a.restores }
   | _ => a
 
